@@ -14,7 +14,7 @@ deriving Inhabited, Repr
 
 inductive BExpr where
   | t | f | argnil (i : Nat) | argeq (i : Nat) (b : List Nat)
-  | sge (k : String) (n : Int) | gge (k : String) (n : Int) | even | bnot (b : BExpr)
+  | sge (k : String) (n : Int) | gge (k : String) (n : Int) | even | posge (n : Int) | tlen (n : Int) | bnot (b : BExpr)
 deriving Inhabited, Repr
 
 inductive Effect where
@@ -72,6 +72,8 @@ def evalB (c : Ctx) : BExpr → Bool
   | .sge k n => intGe (c.state.get k) n
   | .gge k n => intGe (c.global.get k) n
   | .even => c.calli % 2 == 0
+  | .posge n => decide ((c.pos.off : Int) ≥ n)
+  | .tlen n => decide ((c.text.length : Int) ≥ n)
   | .bnot b => !evalB c b
 
 def inc (s : Store) (k : String) : Store :=
